@@ -664,17 +664,23 @@ func (x *c12exec) run(e common.Env, p *common.Part) *c12fail {
 				continue
 			}
 			orig := sch.SyncFactory
-			var arrivals int32
+			var arrivals, met, waiting int32
 			gate := make(chan struct{})
 			var gateOnce sync.Once
 			sch.SyncFactory = func(members []uint16, bc func([]byte), send func([]byte, uint16)) tss.Synchronizer {
 				switch atomic.AddInt32(&arrivals, 1) {
 				case 1:
+					atomic.StoreInt32(&waiting, 1)
 					select {
 					case <-gate:
-					case <-time.After(40 * time.Millisecond):
+					case <-time.After(time.Duration(40*x.h.Scale) * time.Millisecond):
 					}
+					atomic.StoreInt32(&waiting, 0)
 				case 2:
+					// the first caller is still inside the factory: it cannot have made this call itself, so this is the other Sign
+					if atomic.LoadInt32(&waiting) == 1 {
+						atomic.StoreInt32(&met, 1)
+					}
 					gateOnce.Do(func() { close(gate) })
 				}
 				return orig(members, bc, send)
@@ -703,6 +709,12 @@ func (x *c12exec) run(e common.Env, p *common.Part) *c12fail {
 			sch.SyncFactory = orig
 			if x.hung {
 				return fail("call-did-not-return", "one of two Sign calls issued together on one topic at node "+fmt.Sprint(victim)+" had not returned long after its context ended", false)
+			}
+			if atomic.LoadInt32(&met) == 0 {
+				// the two calls did not meet in the admission step (the second one came after the first had gone on, possibly after it
+				// had finished): whatever happened is a sequence of two calls, not a race, and is not judged here
+				p.Count("rendezvous_missed", 1)
+				continue
 			}
 			refused := 0
 			var winner callRes
